@@ -52,33 +52,48 @@ impl<'a> PathBuilder<'a> {
 }
 
 fn match_path_segments(segments: &[&str], old_segments: &[PathSegment]) -> Option<HashSet<usize>> {
-    // This hurt my eyes
-
-    let mut optionals = HashSet::new();
-
-    let mut segments_iter = old_segments.iter().enumerate();
-    'outer: for seg in segments {
-        'inner: loop {
-            let (index, next_seg) = segments_iter.next()?;
-
-            match next_seg {
-                PathSegment::Unit => continue 'inner,
-                PathSegment::Param(_) => continue 'outer,
-                PathSegment::OptionalParam(to_match) if to_match == seg => {
-                    optionals.insert(index);
-                    continue 'outer;
-                }
-                PathSegment::OptionalParam(_) => continue 'inner,
-                PathSegment::Static(to_match) if to_match.is_empty() => continue 'inner,
-                PathSegment::Static(to_match) if to_match == seg => continue 'outer,
-                PathSegment::Static(_) => return None,
-                PathSegment::Splat(_) => return Some(optionals),
+    // `index` is the position of `route[0]` in the whole route,
+    // the optional params that took a segment are recorded by their position.
+    fn match_from(
+        segments: &[&str],
+        route: &[PathSegment],
+        index: usize,
+        optionals: &mut HashSet<usize>,
+    ) -> bool {
+        let Some((next_seg, route)) = route.split_first() else {
+            // if both are empty, perfect match !
+            return segments.is_empty();
+        };
+        let index_rest = index + 1;
+        match next_seg {
+            PathSegment::Unit => match_from(segments, route, index_rest, optionals),
+            PathSegment::Static(to_match) if to_match.is_empty() => {
+                match_from(segments, route, index_rest, optionals)
             }
+            // a splat takes whatever is left, even nothing
+            PathSegment::Splat(_) => true,
+            PathSegment::OptionalParam(_) => {
+                // the param takes the next segment if the rest still match that way, else it is absent
+                if let Some((_, segments_rest)) = segments.split_first() {
+                    optionals.insert(index);
+                    if match_from(segments_rest, route, index_rest, optionals) {
+                        return true;
+                    }
+                    optionals.remove(&index);
+                }
+                match_from(segments, route, index_rest, optionals)
+            }
+            PathSegment::Param(_) => segments
+                .split_first()
+                .is_some_and(|(_, segments)| match_from(segments, route, index_rest, optionals)),
+            PathSegment::Static(to_match) => segments.split_first().is_some_and(|(seg, segments)| {
+                to_match == seg && match_from(segments, route, index_rest, optionals)
+            }),
         }
     }
 
-    // if iter is empty, perfect match !
-    segments_iter.next().is_none().then_some(optionals)
+    let mut optionals = HashSet::new();
+    match_from(segments, old_segments, 0, &mut optionals).then_some(optionals)
 }
 
 /// Splits a path into its first non empty segment and what follows it
